@@ -727,8 +727,17 @@ func runC07(c *core.Ctx) {
 				codeObj := sysP.Types.Scope().Lookup(p.codeName)
 				ok := false
 				ast.Inspect(fd.Body, func(n ast.Node) bool {
-					cc, isCC := n.(*ast.CaseClause)
-					if !isCC {
+					// an arm: a case clause, or a branch of an if/else-if chain
+					var cc struct {
+						List []ast.Expr
+						Body []ast.Stmt
+					}
+					switch arm := n.(type) {
+					case *ast.CaseClause:
+						cc.List, cc.Body = arm.List, arm.Body
+					case *ast.IfStmt:
+						cc.List, cc.Body = []ast.Expr{arm.Cond}, arm.Body.List
+					default:
 						return true
 					}
 					inLabel := false
